@@ -21,11 +21,11 @@ echo "   $suite"
 echo "== with change: demo"
 cargo test --offline --features human_encoding,test-utils --test seeded_demo >/tmp/seed-demo-with-$$.log 2>&1; with=$?
 echo "   exit $with"
-git stash push -q -- src simplicity-sys 2>/dev/null || git stash -q
+git apply -R "$out/patch.diff" || { echo "cannot revert patch"; exit 2; }   # (git stash is shared between worktrees: not used)
 echo "== without change: demo"
 cargo test --offline --features human_encoding,test-utils --test seeded_demo >/tmp/seed-demo-without-$$.log 2>&1; without=$?
 echo "   exit $without"
-git stash pop -q
+git apply "$out/patch.diff"
 echo "== checks on /repo with the change applied"
 evbak=$(mktemp -d /tmp/evidence-backup.XXXXXX); cp -a /verif/evidence/. "$evbak"/
 cd /repo && git apply "$out/patch.diff" || { echo "patch does not apply to /repo"; exit 2; }
